@@ -57,6 +57,8 @@ def main():
             res["checks"][pid] = {"exit": rc, "lines": [l[:300] for l in lines[:4]]}
     finally:
         sh(f"git -C /repo worktree remove --force {wt}")
+        # checks regenerate lean/HeimdallModel/Gen/*.lean from the tree they run against: restore the committed copies
+        sh(f"git -C {vlib.VERIF} checkout -- lean/HeimdallModel/Gen")
     print(json.dumps(res, indent=1))
 
 
